@@ -118,8 +118,20 @@ func runChaos(prop, part, tier string, seed uint64, idx int) core.Result {
 				r.Count("follower_wipes", 1)
 			}
 		case p < 72:
+			nEv := len(c.Events())
 			ch.rejoinStragglers()
 			ch.refreshAmnesiac()
+			// a node whose log was just cut restarts right away, before the log grows back over the cut (what its
+			// log files hold on disk is then what it comes back with)
+			for _, e := range c.Events()[nEv:] {
+				if e.Kind == "truncate-ok" && rng.IntN(2) == 0 && e.Node != ch.leader {
+					if err := c.Node(e.Node).Restart(); err == nil {
+						delete(ch.attached, e.Node)
+						r.Count("restarts_right_after_a_truncation", 1)
+						ch.log("restart %s right after its log was truncated to %d", e.Node, e.Offset)
+					}
+				}
+			}
 		case p < 76:
 			// the Truncate request of the current term reaches a follower a second time (a retry or a network
 			// duplicate), possibly after the follower has received and acknowledged entries beyond that point
@@ -151,7 +163,11 @@ func runChaos(prop, part, tier string, seed uint64, idx int) core.Result {
 						c.Link(old, n.Name).SetStalled(true)
 					}
 				}
-				ch.write(1+rng.IntN(6), false)
+				tail := 1 + rng.IntN(6)
+				if rng.IntN(3) == 0 {
+					tail = 10 + rng.IntN(30) // long enough to span log segments
+				}
+				ch.write(tail, false)
 				time.Sleep(time.Duration(rng.IntN(3)) * time.Millisecond)
 				ch.log("isolate leader %s with unreplicated tail", old)
 				set := ch.majorityExcluding(old)
